@@ -492,7 +492,8 @@ impl Run {
             let data: Value = Binary::from_base64(sp["data"].as_str().unwrap_or("")).ok().and_then(|b| from_json::<Value>(&b).ok()).unwrap_or(Value::Null);
             let amount: u128 = data["amount"].as_str().unwrap_or("0").parse().unwrap_or(0);
             let ts: u64 = sp["timeout"]["timestamp"].as_str().unwrap_or("0").parse().unwrap_or(0);
-            let rel = (ts / 1_000_000_000) as i64 - (T0 + self.w.t) as i64;
+            let now_nanos = (T0 * TICKS + self.w.t) * TICK_NANOS;
+            let rel = if ts >= now_nanos && (ts - now_nanos) % 1_000_000_000 == 0 { ((ts - now_nanos) / 1_000_000_000) as i64 } else { -2 };
             let blk = if sp["timeout"]["block"].is_null() { 0 } else { 1 };
             return rec("packet", sp["channel_id"].as_str().unwrap_or("").to_string(), self.denom_model(data["denom"].as_str().unwrap_or("")),
                 self.sc.down(amount, "packet amount"), self.w.name_of(data["sender"].as_str().unwrap_or("")), data["receiver"].as_str().unwrap_or("").to_string(),
